@@ -373,6 +373,54 @@ func segments(s *hx.Seq) {
 		if got := segmentpb.MaxMagnitude(l...); got != wantMax {
 			s.Fail("max "+name, fmt.Sprintf("MaxMagnitude=%v, the step function peaks at %v", got, wantMax), nil)
 		}
+		// Max / MaxAfter name a segment: one of non-zero length, at or after the moment asked about, that carries
+		// the peak of the step function from that moment on; len(l) when the function is not defined there
+		peakFrom := func(from time.Duration) (peak float32, ok bool) {
+			for _, u := range samples(tot) {
+				if u < from {
+					continue
+				}
+				if v, def := f(orig, u); def && (!ok || v > peak) {
+					peak, ok = v, true
+				}
+			}
+			return
+		}
+		checkIdx := func(what string, idx int, from time.Duration) {
+			peak, def := peakFrom(from)
+			switch {
+			case !def:
+				if idx != len(l) {
+					s.Fail(what+" "+name, fmt.Sprintf("%s=%d, but the step function is not defined from there on: want %d", what, idx, len(l)), nil)
+				}
+			case idx < 0 || idx >= len(l):
+				s.Fail(what+" "+name, fmt.Sprintf("%s=%d, but the step function peaks at %v from there on", what, idx, peak), nil)
+			default:
+				var start time.Duration
+				for i := 0; i < idx; i++ {
+					if l[i].Length != nil {
+						start += l[i].Length.AsDuration()
+					}
+				}
+				zero := l[idx].Length != nil && l[idx].Length.AsDuration() <= 0
+				ended := l[idx].Length != nil && start+l[idx].Length.AsDuration() <= from
+				if zero || ended || l[idx].Magnitude != peak {
+					s.Fail(what+" "+name, fmt.Sprintf("%s=%d (magnitude %v, zero-length %v, over before the moment asked about %v); the step function peaks at %v from there on", what, idx, l[idx].Magnitude, zero, ended, peak), nil)
+				}
+			}
+		}
+		if pn := guard(func() { checkIdx("Max", segmentpb.Max(l...), -time.Second) }); pn != nil {
+			s.Fail("panic Max "+name, fmt.Sprint(pn), nil)
+		}
+		for _, t := range samples(tot) {
+			if t < 0 {
+				continue
+			}
+			s.Eval(1)
+			if pn := guard(func() { checkIdx(fmt.Sprintf("MaxAfter(%v)", t), segmentpb.MaxAfter(t, l...), t) }); pn != nil {
+				s.Fail(fmt.Sprintf("panic MaxAfter %s t=%v", name, t), fmt.Sprint(pn), nil)
+			}
+		}
 		unchanged("Duration/Max")
 		// Shift
 		for dd := -5; dd <= 5; dd++ {
@@ -555,6 +603,29 @@ func modes(s *hx.Seq) {
 				}
 				if ok != wok || (ok && got != want) {
 					s.Fail(fmt.Sprintf("mode-magnitude-at %s t=t0%+v", name, d), fmt.Sprintf("MagnitudeAt=(%v,%v), want (%v,%v)", got, ok, want, wok), nil)
+				}
+				// MaxSegmentAfter: the segment carrying the peak of the mode's function from t on
+				{
+					var peak float32
+					def := false
+					start := t // a mode without start time starts at the moment asked about
+					if orig.StartTime != nil {
+						start = orig.StartTime.AsTime()
+					}
+					for _, off := range samples(tot) {
+						if start.Add(off).Before(t) {
+							continue
+						}
+						if v, ok2 := f(orig.Segments, off); ok2 && (!def || v > peak) {
+							peak, def = v, true
+						}
+					}
+					var idx int
+					if pn := guard(func() { idx = modepb.MaxSegmentAfter(t, m) }); pn != nil {
+						s.Fail(fmt.Sprintf("panic modepb.MaxSegmentAfter %s t=%v", name, d), fmt.Sprint(pn), nil)
+					} else if n := len(m.Segments); (!def && idx != n) || (def && (idx < 0 || idx >= n || m.Segments[idx].Magnitude != peak)) {
+						s.Fail(fmt.Sprintf("mode-max-segment-after %s t=t0%+v", name, d), fmt.Sprintf("MaxSegmentAfter=%d of %v; from t on the mode's function peaks at (%v, defined %v)", idx, str(m.Segments), peak, def), nil)
+					}
 				}
 				// Cut
 				var b, a *traits.ElectricMode
